@@ -137,6 +137,10 @@ pub struct ReaderPlan {
     /// look at the destination buffer before filling it (Miri: makes handing
     /// uninitialised memory to a safe `Read` visible)
     pub inspect: bool,
+    /// (call index, extra): this call fills the buffer and then claims to have
+    /// read `extra` bytes more than fit - a safe but contract-violating
+    /// `Read` implementation, which must not lead to undefined behaviour
+    pub over_report: Option<(usize, usize)>,
 }
 
 impl ReaderPlan {
@@ -146,6 +150,7 @@ impl ReaderPlan {
             fault: None,
             token: 0,
             inspect: false,
+            over_report: None,
         }
     }
 }
@@ -233,6 +238,17 @@ impl Read for SimReader<'_> {
         };
         if avail == 0 {
             return Ok(0);
+        }
+        if let Some((at, extra)) = self.plan.over_report {
+            if at == call {
+                let n = buf.len().min(avail);
+                let p = self.pos as usize;
+                buf[..n].copy_from_slice(&self.data[p..p + n]);
+                self.pos += n as u64;
+                self.delivered += n as u64;
+                self.fault_fired = true;
+                return Ok(buf.len() + extra);
+            }
         }
         let want = buf.len().min(avail);
         let (eintr, n) = self.plan.chunking.decide(call, self.eintr_run, want);
